@@ -71,13 +71,15 @@
 } while (0)
 
 #define STRH2SNUM(_str, _len, _type)	do {				\
-		_type _res = 0, _sign = 1;				\
+		_type _sign = 1;					\
+		uint64_t _res = 0; /* No signed overflow. */	\
 		if (NULL == (_str) || 0 == (_len))			\
 			return (0);					\
 		STRH2NUM_SIGN((_str), (_len), _sign);			\
-		STRH2NUM((_str), (_len), _type, _res);			\
-		_res *= _sign;						\
-		return (_res);						\
+		STRH2NUM((_str), (_len), uint64_t, _res);		\
+		if (0 > _sign)						\
+			return ((_type)(0 - _res));			\
+		return ((_type)_res);					\
 } while (0)
 
 
